@@ -349,6 +349,9 @@ func verifyFunc(prog *Program, specs *SpecSet, sp *FuncSpec) (res *FuncResult) {
 			allowed["ghost$"+g] = true
 		}
 		for _, h := range sortedKeys(out) {
+			if strings.HasPrefix(h, "ghost$") && localGhosts[h[6:]] {
+				continue
+			}
 			if allowed[h] || h == "$alloc" || strings.HasPrefix(h, "$visited") || h == "$epoch" {
 				continue
 			}
